@@ -222,6 +222,18 @@ def _match(exp, out, env, W):
                     return False
             return res
         return val == exp[1]
+    if kind in ("errv", "okv"):
+        if val is guards.OPAQUE:
+            return None
+        if not (isinstance(val, tuple) and val and val[0] in ("Ok", "Err")):
+            return None
+        if kind == "errv":
+            return val[0] == "Err"
+        if val[0] != "Ok":
+            return False
+        if val[1] is guards.OPAQUE:
+            return None
+        return val[1] == exp[1]
     if kind == "normal":
         # a normal return (not a panic); the value is not constrained
         return True
